@@ -12,7 +12,8 @@ VARIABLES t, n
 
 a == Id0("a")  b == Id0("b")  one == IntL(1)
 E == Hole("e")
-Atoms == IF Wide THEN {a, b, one, Attr(a, "p"), StrL(<<120>>)} ELSE {a, b}
+\* (the same three-segment path under a namespaced and under a plain root: two different operands)
+Atoms == IF Wide THEN {a, b, one, Attr(a, "p"), StrL(<<120>>), Attr(Attr(Id(<<"ns">>, "a"), "p"), "q"), Attr(Attr(a, "p"), "q")} ELSE {a, b}
 \* bracketing constructs reset precedence: their holes are ordinary expression holes
 Brackets == IF Wide
             THEN { Call(Id0("concat"), <<E, b>>), Call(Id(<<"f">>, "g"), <<E>>), Lst(<<E>>), Lst(<<a, E>>),
